@@ -40,6 +40,7 @@ FIXES = [
     ("C01", "fix: break and recurse inside map/filter/sort lambdas", "X inside ƛ ' µ was a no-op (2ƛX!; gave [1, 1] instead of [1, 2]) and x printed the stack, because their bodies were parsed with LambdaMap/Filter/Sort as parent"),
     ("C08", "fix: Þ∴ and Þ∵ pair their lists", "Þ∴ / Þ∵ on lists of unequal length: ⟨0⟩ ⟨⟩ Þ∴ raised IndexError, ⟨⟩ ⟨0⟩ Þ∴ gave ⟨⟩, lazy ⟨-1|0⟩ ⟨2⟩ Þ∴ wrapped to ⟨2|2⟩"),
     ("C01", "fix: break and recurse inside a named function body", "X inside @f|...; was a silent no-op (@f|1X2;@f; left 1 2 instead of returning with 1) and x printed the stack: the body was parsed with FunctionCall as parent while the lowering tests FunctionDef"),
+    ("C02", "fix: a string literal that ends in a lone backslash", "‛a\\ with dictionary compression off emitted stack.append(\"a\\\") (unterminated string literal); with compression on the backslash was silently dropped"),
     ("C02", "fix: the template of ¨…", "the template of ¨… had a positional argument after a keyword argument: every program containing ¨… failed to compile"),
 ]
 
